@@ -207,14 +207,26 @@ func runPRD(c *Ctx, s *Sink) {
 			if body == nil {
 				return true
 			}
+			// one iteration that both creates and removes an attribute is a renaming applied on its own
+			sets, deletes := false, false
 			ast.Inspect(body, func(m ast.Node) bool {
 				if call, isC := m.(*ast.CallExpr); isC {
-					if f := callee(info, call); f != nil && f.Name() == "RenameAttribute" {
-						bad = true
+					if f := callee(info, call); f != nil {
+						switch f.Name() {
+						case "RenameAttribute":
+							bad = true
+						case "SetAttribute":
+							sets = true
+						case "DeleteAttribute":
+							deletes = true
+						}
 					}
 				}
 				return true
 			})
+			if sets && deletes {
+				bad = true
+			}
 			return true
 		})
 		if bad {
